@@ -172,8 +172,7 @@ def counters(chk, F):
     chk.floor(rule, "to_S_nanoseconds wrappers", m, 4)
 
 
-def day_of_year(chk, F):
-    rule = "C20.R3"
+def day_of_year(chk, F, rule="C20.R3"):
     eng, D = ctx(F)
     fg = F.find1(self_ty="Epoch", name="from_gregorian", trait="")
     fy = F.find1(self_ty="Epoch", name="year", trait="")
